@@ -133,6 +133,22 @@ class Deco:
 deco = Deco()
 
 
+class Col:
+    """rich comparisons and operators that do not return what the operator usually returns"""
+    def __eq__(self, other: object) -> "Col": ...  # type: ignore[override]
+    def __ne__(self, other: object) -> "Col": ...  # type: ignore[override]
+    def __lt__(self, other: object) -> "Col": ...
+    def __ge__(self, other: object) -> str: ...
+    def __contains__(self, other: object) -> bool: ...
+    def __add__(self, other: object) -> int: ...
+    def __neg__(self) -> str: ...
+    def __invert__(self) -> "Col": ...
+    def __getitem__(self, i: int) -> float: ...
+    def __call__(self) -> bytes: ...
+    def __bool__(self) -> bool: ...
+col = Col()
+
+
 class C:
     attr_int: int = 1
     attr_any: Any = None
@@ -163,7 +179,10 @@ OPERANDS = [
     "os.getcwd()", "undefined_function()", "(lambda: 1)()",
     # decorated callables: the name's type is what the decorators return, not what the def says
     "d_int_to_str()", "d_same_int()", "d_generic_int()", "d_untyped()", "d_factory()", "d_stack_bad()", "d_cached()", "d_lru()", "d_ctx()", "lam_int()", "part_int()",
-    "deco.cp_int", "d_int_to_str", "d_same_int",
+    "deco.cp_int", "d_int_to_str", "d_same_int", "deco.m_changed()",
+    # operators whose result type is decided by the operand's own methods (or is Any)
+    "v_any == 1", "v_any < 1", "v_any != v_any", "v_int == v_any", "v_any in v_list", "v_int in v_any", "v_any is None", "not v_any", "-v_any", "v_any + 1", "v_any[0]",
+    "col == 1", "col != col", "col < 1", "col >= 1", "1 in col", "col + 1", "-col", "~col", "col[0]", "col()", "not col", "col is None", "1 < v_int < 3", "v_int == 1 == v_any",
     # attributes
     "c.attr_int", "c.attr_any", "c.cls_var", "C.cls_var", "c.inst_str", "c.prop_str", "v_nt.a", "v_path.name", "os.sep", "IE.A", "c.missing",
     # operators and subscripts
